@@ -61,6 +61,8 @@ func (p *c03) Gen(seed uint64, i int, tier string) (any, bool) {
 	if r.Chance(1, 4) {
 		sc.Server.Caps = []string{"8BITMIME"}
 	}
+	Swarm(r, &sc.Client, &sc.Server.Caps)
+	sc.Client.NoNoop = false // the NOOP positions are part of this property's reply scripts
 	sc.PreRender = r.Chance(1, 2)
 	sc.Server.MultiLine = r.Chance(1, 5)
 	shape := DefaultShape
